@@ -207,6 +207,14 @@ func c11Gen(t *rapid.T, maxN int) c11Case {
 		few[i] = int64(rng.float() * scale)
 	}
 	gap := math.Exp(rapid.Float64Range(0, math.Log(1e9)).Draw(t, "gap"))
+	// weeks-long latencies (what a results file may hold): odd nanosecond counts from 2^52 up to 2^53, the last range in
+	// which the estimator's float64 still holds every integer
+	if (c.Family == "constant" || c.Family == "fewvalued") && rapid.IntRange(0, 3).Draw(t, "weeks") == 0 {
+		scale = float64(rapid.SampledFrom([]int64{1<<52 + 1, 1<<52 + 3, 1<<53 - 1, 1<<52 + 12345677, 1<<52 - 1, 1 << 52}).Draw(t, "long"))
+		for i := range few {
+			few[i] = int64(scale) - 2*int64(rng.next()%1000)
+		}
+	}
 	for i := range c.Lat {
 		var v float64
 		switch c.Family {
